@@ -136,10 +136,13 @@ def rule_nondet(ctx):
                     ctx.bad(rid, "thread-local:" + base, "new thread-local state %s: per-thread state makes results depend on which thread runs a task" % s["path"])
                 continue
             if s["mut"] or not s["freeze"]:
-                if s["path"] in EXPECTED_STATICS_INTERIOR:
-                    ctx.ok(rid, "static:" + s["path"], EXPECTED_STATICS_INTERIOR[s["path"]])
+                cls = static_class(s)
+                if cls is not None:
+                    ctx.ok(rid, "static:%s" % cls, "%s (usage obligations checked by R-LAZY)" % s["path"])
+                    ctx.count(rid + ".shared-statics")
                 else:
-                    ctx.bad(rid, "static:" + s["path"], "new mutable / interior-mutable static %s: %s — shared state across renders and threads" % (s["path"], s["ty"]))
+                    ctx.bad(rid, "static:" + s["path"], "new mutable / interior-mutable static %s: %s - shared state across renders and threads "
+                            "of a kind that has no reviewed discipline (Once, static mut under Once, Mutex-guarded memo table)" % (s["path"], s["ty"]))
         for ap, adt in cr.adts.items():
             for v in adt["variants"]:
                 for fl in v["fields"]:
@@ -149,10 +152,18 @@ def rule_nondet(ctx):
                             ctx.ok(rid, "atomic-field:%s.%s" % k, "reviewed")
                         else:
                             ctx.bad(rid, "atomic-field:%s.%s" % k, "new atomic field: cross-thread shared state that needs its own argument")
-    for p in EXPECTED_STATICS_INTERIOR:
-        cn = p.split("::")[0]
-        if not any(s["path"] == p for s in prog.crate(cn).statics):
-            ctx.bad(rid, "static-gone:" + p, "reviewed static no longer exists; census table must be re-confirmed")
+
+
+def static_class(s):
+    """kind of a mutable / interior-mutable static by its type (names are not relied upon)"""
+    ty = s["ty"]
+    if ty.replace(" ", "").startswith("[std::sync::once::Once;") or ty == "std::sync::once::Once":
+        return "once:" + s["path"].split("::")[0]
+    if s["mut"]:
+        return "static-mut-under-once:" + s["path"].split("::")[0]
+    if ty.startswith("std::sync::poison::mutex::Mutex<") and ("BTreeMap<" in ty or "HashMap<" in ty):
+        return "mutex-memo:" + s["path"].split("::")[0]
+    return None
 
 
 def closure_of_arg(f, defs, o):
@@ -467,67 +478,79 @@ def slot_ok_edges(f, defs, guard):
 # ---------------------------------------------------------------------------------------
 def rule_lazy(ctx):
     rid = "R-LAZY"
-    ctx.rule(rid, "lazily built shared tables are write-once: LARGE_NATURAL_ORDER is written only inside the closure given to "
-                  "Once::call_once and read only after that call; SEC_HALF_LARGE is touched only under its Mutex via "
-                  "entry().or_insert_with()")
+    ctx.rule(rid, "lazily built shared tables are write-once, whatever they are called: every access to a `static mut` is either inside "
+                  "the closure handed to Once::call_once or dominated by that call_once in the same function; a Mutex-guarded memo map is "
+                  "touched only as lock() + entry().or_insert_with() (insert-once per key, value computed from the key); a Once static is "
+                  "used only through call_once")
     prog = ctx.prog
-    LNO = "jxl_vardct::hf_pass::natural_order_lazy::LARGE_NATURAL_ORDER"
+    kinds = {}
+    for cn in DECODER_CRATES:
+        for st_ in prog.crate(cn).statics:
+            if "tracing" in st_["ty"] or "__CALLSITE" in st_["path"] or st_["path"].endswith("::META") or st_["thread_local"] or "thread::local" in st_["ty"]:
+                continue
+            if st_["mut"] or not st_["freeze"]:
+                cls = static_class(st_)
+                if cls:
+                    kinds[st_["path"]] = cls.split(":")[0]
     users = {}
     for f in prog.all_fns(DECODER_CRATES):
         for b, blk in enumerate(f.blocks):
             for st in blk[0]:
                 if st[0] == "=" and st[2][0] in ("use",) and st[2][1][0] == "k":
-                    c = st[2][1][1]
-                    s = c.get("static", "")
-                    for nm in ("LARGE_NATURAL_ORDER", "SEC_HALF_LARGE"):
-                        if s.endswith("::" + nm):
-                            users.setdefault(nm, []).append((f, b, st))
-                if st[0] == "=" and st[2][0] == "tlref":
-                    pass
-    lno = users.get("LARGE_NATURAL_ORDER", [])
-    if not lno:
-        ctx.anchor_missing(rid, LNO)
-    for f, b, st in lno:
-        ctx.seen(f)
-        ctx.count(rid + ".static-mut-accesses")
-        if f.kind == "Closure" and f.parent == "jxl_vardct::hf_pass::natural_order_lazy":
-            # the closure must be the one handed to Once::call_once
-            par = prog.fn(f.parent)
-            pd = Defs(par)
-            okc = False
-            for bb, t in par.calls():
-                c = callee(t)
-                if c and c["fn"] == "std::sync::once::Once::call_once" and closure_of_arg(par, pd, t[2][-1]) == f.path:
-                    okc = True
-            if okc:
-                ctx.ok(rid, "write-under-once:" + f.path, "static mut accessed in the Once::call_once closure", nontrivial=True, fn=f)
-            else:
-                ctx.bad(rid, "static-mut-outside-once:" + f.path, "LARGE_NATURAL_ORDER is accessed in a closure that is not given to Once::call_once", fn=f, pos=st[3])
-        elif f.path == "jxl_vardct::hf_pass::natural_order_lazy":
-            once = [bb for bb, t in f.calls() if callee(t) and callee(t)["fn"] == "std::sync::once::Once::call_once"]
-            if once and all(f.dominates(o, b) for o in once[:1]):
-                ctx.ok(rid, "read-after-once", "the read is dominated by Once::call_once", nontrivial=True, fn=f)
-            else:
-                ctx.bad(rid, "read-before-once", "LARGE_NATURAL_ORDER is read on a path that has not passed Once::call_once (data race with the initialiser)", fn=f, pos=st[3])
-        else:
-            ctx.bad(rid, "static-mut-user:" + f.path, "LARGE_NATURAL_ORDER accessed outside natural_order_lazy", fn=f, pos=st[3])
-    sh = users.get("SEC_HALF_LARGE", [])
-    if not sh:
-        ctx.anchor_missing(rid, "SEC_HALF_LARGE")
-    for f, b, st in sh:
-        ctx.seen(f)
-        if f.path != "jxl_render::vardct::dct_common::sec_half":
-            ctx.bad(rid, "sec-half-user:" + f.path, "SEC_HALF_LARGE accessed outside sec_half", fn=f, pos=st[3])
-            continue
-        names = [callee(t)["fn"] for _, t in f.calls() if callee(t)]
-        need = ["std::sync::poison::mutex::Mutex::<T>::lock", "alloc::collections::btree::map::BTreeMap::<K, V, A>::entry",
-                "alloc::collections::btree::map::entry::Entry::<'a, K, V, A>::or_insert_with"]
-        missing = [n for n in need if n not in names]
-        bad = [n for n in names if n.startswith("alloc::collections::btree::map::BTreeMap") and not n.endswith("::entry")]
-        if missing or bad:
-            ctx.bad(rid, "sec-half-shape", "sec_half no longer has the lock + entry().or_insert_with() write-once shape (missing %s, other map ops %s)" % (missing, bad), fn=f)
-        else:
-            ctx.ok(rid, "sec-half-shape", "lock(); map.entry(idx).or_insert_with(pure fn of n)", nontrivial=True, fn=f)
+                    sp = st[2][1][1].get("static", "")
+                    if sp in kinds:
+                        users.setdefault(sp, []).append((f, b, st))
+    n_mut = n_memo = 0
+    for sp, kind in sorted(kinds.items()):
+        us = users.get(sp, [])
+        short = sp.split("::")[-1]
+        if kind == "static-mut-under-once":
+            n_mut += 1
+            if not us:
+                ctx.ok(rid, "unused-static-mut:" + short, "never accessed")
+            for f, b, st in us:
+                ctx.seen(f)
+                ctx.count(rid + ".static-mut-accesses")
+                if f.kind == "Closure" and f.parent:
+                    par = prog.fn(f.parent)
+                    okc = False
+                    if par is not None:
+                        pd = Defs(par)
+                        for bb, t in par.calls():
+                            c = callee(t)
+                            if c and c["fn"] == "std::sync::once::Once::call_once" and closure_of_arg(par, pd, t[2][-1]) == f.path:
+                                okc = True
+                    if okc:
+                        ctx.ok(rid, "write-under-once:" + f.path, "static mut accessed in the Once::call_once closure", nontrivial=True, fn=f)
+                    else:
+                        ctx.bad(rid, "static-mut-outside-once:" + f.path, "%s is accessed in a closure that is not given to Once::call_once" % short, fn=f, pos=st[3])
+                else:
+                    once = [bb for bb, t in f.calls() if callee(t) and callee(t)["fn"] == "std::sync::once::Once::call_once"]
+                    if once and any(f.dominates(o, b) and o != b for o in once):
+                        ctx.ok(rid, "read-after-once:" + f.path, "the access is dominated by Once::call_once", nontrivial=True, fn=f)
+                    else:
+                        ctx.bad(rid, "read-before-once:" + f.path, "%s is accessed on a path that has not passed Once::call_once (data race with the "
+                                "initialiser, and a result that depends on who initialised first)" % short, fn=f, pos=st[3])
+        elif kind == "mutex-memo":
+            n_memo += 1
+            for f, b, st in us:
+                ctx.seen(f)
+                names = [callee(t)["fn"] for _, t in f.calls() if callee(t)]
+                need = ["std::sync::poison::mutex::Mutex::<T>::lock"]
+                has_entry = any(n.endswith("::entry") and ("BTreeMap" in n or "HashMap" in n) for n in names)
+                has_ins = any(n.endswith("::or_insert_with") for n in names)
+                other_ops = [n for n in names if ("BTreeMap::<" in n or "HashMap::<" in n) and not n.endswith("::entry")]
+                if any(n not in names for n in need) or not has_entry or not has_ins or other_ops:
+                    ctx.bad(rid, "memo-shape:" + f.path, "%s is not used as lock() + entry().or_insert_with() only (other map operations: %s): "
+                            "entries could be replaced or removed, so the value seen depends on the history" % (short, other_ops or "-"), fn=f)
+                else:
+                    ctx.ok(rid, "memo-shape:" + f.path, "lock(); map.entry(key).or_insert_with(..)", nontrivial=True, fn=f)
+        elif kind == "once":
+            for f, b, st in us:
+                ctx.seen(f)
+    ctx.counts[rid + ".static-mut"] = n_mut
+    ctx.counts[rid + ".memo-tables"] = n_memo
+    ctx.floor(rid + ".static-mut-accesses", 2)
 
 
 def rule_scratch(ctx):
